@@ -302,8 +302,12 @@ class MappingStorage:
             self._transaction = transaction
             self._tdata = {}
             if tid is None:
+                # Later than the last transaction committed - which a
+                # pack may have removed from _transactions meanwhile.
                 if self._transactions:
-                    old_tid = self._transactions.maxKey()
+                    old_tid = max(self._transactions.maxKey(), self._ltid)
+                elif self._ltid != ZODB.utils.z64:
+                    old_tid = self._ltid
                 else:
                     old_tid = None
                 tid = ZODB.utils.newTid(old_tid)
